@@ -373,6 +373,15 @@ func (fc *FuncCtx) runGhostAts(call *ast.CallExpr, before bool, st *St, results 
 		if ga.Kind != "call" || ga.Callee != name || ga.Ord != ord || ga.Before != before {
 			continue
 		}
+		if ga.Pass {
+			if id, ok := ga.LHS.(SIdent); ok {
+				if fc.pendingPass == nil {
+					fc.pendingPass = map[string]Term{}
+				}
+				fc.pendingPass[id.Name] = fc.spec(ga.RHS, fc.newEnv(st))
+			}
+			continue
+		}
 		extra := map[string]Term{}
 		if !before {
 			if len(results) > 0 {
@@ -393,6 +402,18 @@ func (fc *FuncCtx) execGhost(lhs, rhs SExpr, st *St, extra map[string]Term) {
 	}
 	v := fc.spec(rhs, env)
 	switch l := lhs.(type) {
+	case SCall:
+		// glob(name) = e : assignment to an abstract global (ghost) state component
+		if l.Fn == "glob" && len(l.Args) == 1 {
+			if id, ok := l.Args[0].(SIdent); ok {
+				if ty, ok := fc.E.CS.Globals[id.Name]; ok {
+					fc.globOf(st, id.Name, fc.sortOfSType(ty, nil))
+					st.glob[id.Name] = fc.nameIt(st, "glob_"+id.Name, v)
+					return
+				}
+			}
+		}
+		fc.unsupported(st, "ghost assignment target", "")
 	case SIdent:
 		if _, ok := st.ghost[l.Name]; !ok {
 			fc.unsupported(st, "assignment to undeclared ghost "+l.Name, "")
@@ -764,6 +785,26 @@ func (fc *FuncCtx) cbAt(fv *FuncVal, args []Term, k Term, elem *Sort) Term {
 // call is appended to the parameter's ghost trace; the callback is frame-respecting (may allocate,
 // never writes an existing cell).
 func (fc *FuncCtx) callCallback(fv *FuncVal, args []Term, call *ast.CallExpr, st *St) []Term {
+	if like, ok := fc.Con.ParamSpecs[fv.Name]; ok && strings.HasPrefix(like, "like ") {
+		// the parameter behaves like a declared function: its calls go through that function's contract
+		target, mapping, err := parseLike(like)
+		key := fc.Pkg.Name + "." + target
+		con := fc.E.CS.Funcs[key]
+		ref := fc.E.FuncDecl[key]
+		if err != nil || con == nil || ref == nil {
+			fc.unsupported(st, "bad like-contract of parameter "+fv.Name, fc.pos(call))
+			return fc.deadResults(call)
+		}
+		full := make([]Term, len(mapping))
+		for i, m := range mapping {
+			if m >= 0 && m < len(args) {
+				full[i] = args[m]
+			} else {
+				full[i] = Term{S: "0", Sort: &Sort{Kind: KFunc}}
+			}
+		}
+		return fc.callByContract(con, ref, ref.Obj, full, call, st)
+	}
 	name := fv.Name
 	n, ok := st.trn[name]
 	if !ok {
@@ -878,6 +919,13 @@ func (fc *FuncCtx) callByContract(con *Contract, ref *FuncRef, fn *types.Func, a
 	for i, n := range names {
 		if i < len(args) {
 			a := args[i]
+			if like, ok := con.ParamSpecs[n]; ok && strings.HasPrefix(like, "like ") && a.Fn != nil {
+				// the callee assumes its parameter behaves like a declared function: check the actual
+				if msg := fc.checkLikeArg(like, a.Fn); msg != "" {
+					fc.nanon++
+					fc.oblig(st, fmt.Sprintf("call.%s.param.%s.like#%d", con.Key, n, fc.nanon), False, "the function value passed for "+n+" must be "+like+": "+msg, "", nil)
+				}
+			}
 			if a.Fn != nil && (a.Fn.Kind == "lit" || a.Fn.Kind == "named") && !con.Extern {
 				// a closure / named function handed to a callee as a callback: it gets a call-site trace so that
 				// the callee's trace postconditions (which calls happened, on what) can be used
@@ -902,6 +950,15 @@ func (fc *FuncCtx) callByContract(con *Contract, ref *FuncRef, fn *types.Func, a
 		env.tparams = fc.tsubstFor(call, fn)
 	} else if call == nil && fc.fvTArgs != nil {
 		env.tparams = fc.fvTArgs
+	}
+	for _, g := range con.GhostIns {
+		if t, ok := fc.pendingPass[g.Name]; ok {
+			env.bound[g.Name] = t
+			delete(fc.pendingPass, g.Name)
+		} else {
+			fc.unsupported(st, "call of "+con.Key+" without a value for its ghost parameter "+g.Name+" (needs `at before call ...: pass "+g.Name+" = e`)", "")
+			return fc.deadResults(call)
+		}
 	}
 	ord := ""
 	if call != nil {
@@ -1101,6 +1158,9 @@ func (fc *FuncCtx) callByContract(con *Contract, ref *FuncRef, fn *types.Func, a
 	}
 	fc.lastCalleeGhosts = map[string]Term{}
 	for _, g := range con.Ghosts {
+		_ = g
+	}
+	for _, g := range con.Ghosts {
 		so := fc.sortOfSType(g.Type, env)
 		env.bound[g.Name] = fc.fresh("cg_"+g.Name, so)
 		fc.lastCalleeGhosts[g.Name] = env.bound[g.Name]
@@ -1114,7 +1174,7 @@ func (fc *FuncCtx) callByContract(con *Contract, ref *FuncRef, fn *types.Func, a
 	}
 	// callbacks that are closures over functions under contract: effects and panics of the calls the callee made
 	for _, w := range wraps {
-		fc.afterWrappedCalls(w, pre, st, pos)
+		fc.afterWrappedCalls(w, pre, st, pos, con)
 	}
 	return results
 }
@@ -1122,7 +1182,7 @@ func (fc *FuncCtx) callByContract(con *Contract, ref *FuncRef, fn *types.Func, a
 // afterWrappedCalls: the callee returned normally, so every call it made of the wrapped function value
 // returned normally: if that function panics exactly under C, then C is false on the arguments of every
 // recorded call; the global state components it modifies are havocked; and the call as a whole may panic.
-func (fc *FuncCtx) afterWrappedCalls(w *FuncVal, pre, st *St, pos string) {
+func (fc *FuncCtx) afterWrappedCalls(w *FuncVal, pre, st *St, pos string, callee *Contract) {
 	n0, n1 := pre.trn[w.Name], st.trn[w.Name]
 	arrs := st.tra[w.Name]
 	fc.qn++
@@ -1133,6 +1193,17 @@ func (fc *FuncCtx) afterWrappedCalls(w *FuncVal, pre, st *St, pos string) {
 	}
 	cond, mods, known := fc.panicCondOf(w.Inner, args, st, 0)
 	for _, g := range mods {
+		// a component the callee itself lists under modifies is described by the callee's own postcondition
+		// (which accounts for what its callbacks did)
+		listed := false
+		for _, m := range callee.Modifies {
+			if m == "glob:"+g {
+				listed = true
+			}
+		}
+		if listed {
+			continue
+		}
 		if ty, ok := fc.E.CS.Globals[g]; ok {
 			so := fc.sortOfSType(ty, nil)
 			fc.globOf(st, g, so)
@@ -1303,4 +1374,91 @@ func (fc *FuncCtx) havocMineAfterCall(st *St, pre *St) Term {
 	nm := fc.fresh("mine", st.mine.Sort)
 	st.assume(T(fmt.Sprintf("(forall ((r Int)) (! (=> (< r %s) (= (select %s r) (select %s r))) :pattern ((select %s r))))", pre.next.S, nm.S, pre.mine.S, nm.S), SBool))
 	return nm
+}
+
+// parseLike parses "like F(_, $0, $1)": the callback's k-th argument is F's formal where $k stands.
+func parseLike(s string) (string, []int, error) {
+	s = strings.TrimSpace(strings.TrimPrefix(s, "like "))
+	i := strings.Index(s, "(")
+	if i < 0 || !strings.HasSuffix(s, ")") {
+		return "", nil, fmt.Errorf("like F(args)")
+	}
+	name := strings.TrimSpace(s[:i])
+	var m []int
+	for _, a := range strings.Split(s[i+1:len(s)-1], ",") {
+		a = strings.TrimSpace(a)
+		if a == "_" {
+			m = append(m, -1)
+		} else if strings.HasPrefix(a, "$") {
+			var k int
+			fmt.Sscan(a[1:], &k)
+			m = append(m, k)
+		} else {
+			return "", nil, fmt.Errorf("bad like argument %q", a)
+		}
+	}
+	return name, m, nil
+}
+
+// checkLikeArg: a function value passed for a parameter with a like-contract must be (a) a parameter of
+// the caller with the same like-contract, or (b) a literal whose body is exactly `return F(...)` with
+// its own parameters at the positions the like-contract names (free positions may be any expression).
+func (fc *FuncCtx) checkLikeArg(like string, fv *FuncVal) string {
+	target, mapping, err := parseLike(like)
+	if err != nil {
+		return err.Error()
+	}
+	switch fv.Kind {
+	case "param":
+		if fc.Con.ParamSpecs[fv.Name] == like {
+			return ""
+		}
+		return "parameter " + fv.Name + " of the caller has no matching like-contract"
+	case "named":
+		if strings.HasSuffix(fv.Name, "."+target) {
+			ok := true
+			for i, m := range mapping {
+				if m != i {
+					ok = false
+				}
+			}
+			if ok {
+				return ""
+			}
+		}
+		return "named function " + fv.Name + " is not " + target
+	case "lit":
+		if len(fv.Lit.Body.List) != 1 {
+			return "literal body is not a single return"
+		}
+		rs, ok := fv.Lit.Body.List[0].(*ast.ReturnStmt)
+		if !ok || len(rs.Results) != 1 {
+			return "literal body is not a single return"
+		}
+		call, ok := ast.Unparen(rs.Results[0]).(*ast.CallExpr)
+		if !ok {
+			return "literal does not return a call"
+		}
+		id, ok := ast.Unparen(call.Fun).(*ast.Ident)
+		if !ok || id.Name != target || len(call.Args) != len(mapping) {
+			return "literal does not call " + target
+		}
+		var pnames []string
+		for _, f := range fv.Lit.Type.Params.List {
+			for _, nm := range f.Names {
+				pnames = append(pnames, nm.Name)
+			}
+		}
+		for i, m := range mapping {
+			if m < 0 {
+				continue
+			}
+			a, ok := call.Args[i].(*ast.Ident)
+			if !ok || m >= len(pnames) || a.Name != pnames[m] {
+				return fmt.Sprintf("argument %d of the call is not the literal's parameter #%d", i, m)
+			}
+		}
+		return ""
+	}
+	return "unsupported function value"
 }
